@@ -476,9 +476,9 @@ fn words_jal(pc: u64, is: u64, ssp: u64) -> Vec<u64> {
 }
 
 fn words_red(pc: u64, is: u64) -> Vec<u64> {
-    let (qf, qb) = ((MEM - pc) / 4, pc / 4);
+    let qf = (MEM - pc) / 4;
     let _ = is;
-    vec![0, 1, 2, qb.saturating_sub(0x2_0000) + 3, qf - 0x2_0000, 1 << 32, W62, W62 + 1, W62 - pc / 4, u64::MAX / 4 + 1, u64::MAX - 1, u64::MAX]
+    vec![0, 1, qf - 0x2_0000, W62, W62 - pc / 4, u64::MAX / 4 + 1, u64::MAX - 1, u64::MAX]
 }
 
 fn imm24_set(is: u64) -> Vec<u32> {
@@ -834,8 +834,9 @@ fn part1(ctx: &Ctx, places: &[Place], t: &mut Totals) {
             let l = L_NE3[d[3]];
             mk(d[4], Op::JNE, l.0, l.1, l.2, 0).set(l.0, CV[d[2]]).set(l.1, CV[d[1]]).set(l.2, places[d[4]].b[d[0]])
         });
-        let rad = [4096, ncv, ncv, L_COND2.len() as u64, np];
-        run_space(ctx, places, t, "jnei", "JNEI x ALL 4096 imm12 x CV^2 condition pairs x 6 layouts x placements", rad.iter().product(), |i| {
+        let ncq: u64 = ctx.pick(4, ncv);
+        let rad = [4096, ncq, ncq, L_COND2.len() as u64, np];
+        run_space(ctx, places, t, "jnei", &format!("JNEI x ALL 4096 imm12 x (first {ncq} of CV)^2 condition pairs x 6 layouts x placements"), rad.iter().product(), |i| {
             let d = digits(i, rad);
             let l = L_COND2[d[3]];
             mk(d[4], Op::JNEI, l.0, l.1, 0, d[0] as u32).set(l.0, CV[d[2]]).set(l.1, CV[d[1]])
@@ -888,13 +889,14 @@ fn part1(ctx: &Ctx, places: &[Place], t: &mut Totals) {
     }
     // --- full immediate sweeps
     {
-        let rad = [4096, nbj, L_JAL.len() as u64, np];
-        run_space(ctx, places, t, "jal", "JAL x ALL 4096 imm12 x Bjal(p) x 10 (link,target) layouts x placements", rad.iter().product(), |i| {
+        let nlj: u64 = ctx.pick(6, L_JAL.len() as u64);
+        let rad = [4096, nbj, nlj, np];
+        run_space(ctx, places, t, "jal", &format!("JAL x ALL 4096 imm12 x Bjal(p) x first {nlj} (link,target) layouts x placements"), rad.iter().product(), |i| {
             let d = digits(i, rad);
             let l = L_JAL[d[2]];
             mk(d[3], Op::JAL, l.0, l.1, 0, d[0] as u32).set(l.1, places[d[3]].bjal[d[1]])
         });
-        let (ncond, nlay): (u64, u64) = ctx.pick((3, 3), (ncv, L_NZ.len() as u64));
+        let (ncond, nlay): (u64, u64) = ctx.pick((2, 2), (ncv, L_NZ.len() as u64));
         let rad = [4096, nb, ncond, nlay, 2, np];
         run_space(ctx, places, t, "jnzf_jnzb", &format!("JNZF, JNZB x ALL 4096 imm12 x B(p) x first {ncond} of CV x first {nlay} layouts x placements"), rad.iter().product(), |i| {
             let d = digits(i, rad);
@@ -931,7 +933,10 @@ fn part1(ctx: &Ctx, places: &[Place], t: &mut Totals) {
             });
             // all imm24 at the placement inside the contract ($is far from the script's)
             let pl = places.iter().position(|p| p.name == "contract_mid").expect("contract placement");
-            run_space(ctx, places, t, "ji", "JI x ALL 2^24 imm24 at placement contract_mid", 1 << 24, |i| mk(pl, Op::JI, 0, 0, 0, i as u32));
+            run_space(ctx, places, t, "ji", "JI x ALL imm24 in [0,2^21) and [2^24-2^21,2^24) at placement contract_mid", 1 << 22, |i| {
+                let imm = if i < 1 << 21 { i } else { (1 << 24) - (1 << 22) + i };
+                mk(pl, Op::JI, 0, 0, 0, imm as u32)
+            });
         }
     }
 }
@@ -1055,24 +1060,36 @@ struct Obs2 {
 
 fn run_fetch(base: &Vm, pc: u64) -> Obs2 {
     let mut vm = base.clone();
-    vmkit::set_reg(&mut vm, R_PC, pc);
-    let pre = vmkit::regs(&vm);
+    run_fetch_inplace(&mut vm, pc)
+}
+
+/// One fetch+execute at `pc` on `vm` itself; registers and the marked word are restored
+/// afterwards (used where cloning the 64 MiB heap per case is too expensive; a refused
+/// fetch takes `&self` and the marker instruction only writes registers).
+fn run_fetch_inplace(vm: &mut Vm, pc: u64) -> Obs2 {
+    let saved = vmkit::regs(vm);
+    vmkit::set_reg(vm, R_PC, pc);
+    let pre = vmkit::regs(vm);
     let inside = pre[R_IS] <= pc && pc < pre[R_SSP];
     // unaligned addresses inside the region are a don't-care and keep the code intact
-    let marked = if inside && pc % 4 != 0 {
-        false
-    } else {
-        match vm.memory_mut().write_noownerchecks(pc, 4usize) {
-            Ok(m) => {
-                m.copy_from_slice(&MARKER.to_be_bytes());
-                true
-            }
-            Err(_) => false,
+    let mut old_word: Option<[u8; 4]> = None;
+    if !(inside && pc % 4 != 0) {
+        if let Ok(m) = vm.memory_mut().write_noownerchecks(pc, 4usize) {
+            let mut w = [0u8; 4];
+            w.copy_from_slice(m);
+            old_word = Some(w);
+            m.copy_from_slice(&MARKER.to_be_bytes());
         }
-    };
-    let step = vmkit::step(&mut vm);
-    let post = vmkit::regs(&vm);
-    Obs2 { pre, post, step, marked }
+    }
+    let step = vmkit::step(vm);
+    let post = vmkit::regs(vm);
+    if let Some(w) = old_word {
+        if let Ok(m) = vm.memory_mut().write_noownerchecks(pc, 4usize) {
+            m.copy_from_slice(&w);
+        }
+    }
+    vm.registers_mut().copy_from_slice(&saved);
+    Obs2 { pre, post, step, marked: old_word.is_some() }
 }
 
 /// Where `$pc` lies relative to the landmarks (class used in keys and histograms).
@@ -1147,7 +1164,7 @@ fn part2(ctx: &Ctx) {
     for c in 0..3 {
         for f in 0..CFEI.len() {
             for a in 0..ALOC_NAMES.len() {
-                // the 64 MiB heap is cloned per case: one stack extension only
+                // building the 64 MiB heap is slow: one stack extension only
                 if a == 3 && f != 1 {
                     continue
                 }
@@ -1163,20 +1180,31 @@ fn part2(ctx: &Ctx) {
             ctx.cap("time budget used up inside part 2");
             break
         }
-        let base = build_scen(&w, *s);
-        let pcs = positions(&base, s.aloc != 3, s.ctx == 2);
+        let t0 = ctx.elapsed();
+        let mut base = build_scen(&w, *s);
+        let pcs = positions(&base, true, s.ctx == 2);
+        if std::env::var("C25_TIMING").is_ok() { eprintln!("scen {:?} built in {:.2}s ({} pcs) at {:.2}", s, ctx.elapsed() - t0, pcs.len(), ctx.elapsed()); }
         let mut res: Vec<(Obs2, Option<(String, String)>)> = Vec::new();
-        space::par_chunks(
-            pcs.len() as u64,
-            if s.aloc == 3 { 2 } else { 16 },
-            Vec::new,
-            |i, acc: &mut Vec<(Obs2, Option<(String, String)>)>| {
-                let o = run_fetch(&base, pcs[i as usize]);
+        if s.aloc == 3 {
+            // 64 MiB heap: one VM, cases run in place one after the other
+            for pc in &pcs {
+                let o = run_fetch_inplace(&mut base, *pc);
                 let j = judge_fetch(&o);
-                acc.push((o, j));
-            },
-            |acc| res.extend(acc),
-        );
+                res.push((o, j));
+            }
+        } else {
+            space::par_chunks(
+                pcs.len() as u64,
+                16,
+                Vec::new,
+                |i, acc: &mut Vec<(Obs2, Option<(String, String)>)>| {
+                    let o = run_fetch(&base, pcs[i as usize]);
+                    let j = judge_fetch(&o);
+                    acc.push((o, j));
+                },
+                |acc| res.extend(acc),
+            );
+        }
         let mut executed = 0;
         for (o, j) in res {
             total += 1;
@@ -1219,7 +1247,7 @@ fn replay_fetch(case: &Value, ctx: &Ctx) {
 // ------------------------------------------------------------------ part 3: programs
 
 /// Steps executed at most per program (prelude and fixed head included).
-const MAX_STEPS: u64 = 96;
+const MAX_STEPS: u64 = 64;
 /// Script layout (instruction indices from $is): 0..9 progkit prelude, then HEAD, then
 /// the body (k letters), then `ret $one`.
 const SUB1: u16 = 10;
@@ -1313,6 +1341,7 @@ struct ProgStats {
     jumps: BTreeMap<String, u64>,
     fetch_refused: u64,
     steps: u64,
+    steps_in_call: u64,
 }
 
 struct ProgResult {
@@ -1340,6 +1369,7 @@ fn run_program(w: &World, body: &[Instruction], stats: &mut ProgStats) -> ProgRe
         let post = vmkit::regs(&vm);
         n += 1;
         stats.steps += 1;
+        stats.steps_in_call += in_call as u64;
         res.trace.push(pc);
         res.last = step.label();
         let at = format!("step {n} at instruction index {} ($pc={pc:#x} $is={:#x})", (pc as i128 - pre[R_IS] as i128) / 4, pre[R_IS]);
@@ -1468,6 +1498,7 @@ fn part3(ctx: &Ctx) {
                 }
                 stats.fetch_refused += acc.stats.fetch_refused;
                 stats.steps += acc.stats.steps;
+                stats.steps_in_call += acc.stats.steps_in_call;
                 for (key, (case, what, _)) in acc.viols {
                     ctx.violation(key, what, case);
                 }
@@ -1483,7 +1514,7 @@ fn part3(ctx: &Ctx) {
         "part3",
         json!({
             "alphabet": alpha.iter().map(|l| l.name.clone()).collect::<Vec<_>>(),
-            "k": k, "programs": done, "steps": stats.steps, "max_steps_per_program": MAX_STEPS, "programs_cut_at_step_cap": capped,
+            "k": k, "programs": done, "steps": stats.steps, "steps_inside_contract_A": stats.steps_in_call, "max_steps_per_program": MAX_STEPS, "programs_cut_at_step_cap": capped,
             "nonjump_opcodes_with_pc_plus_4_verified": stats.plus4,
             "jump_steps": stats.jumps,
             "fetches_outside_region_refused": stats.fetch_refused,
